@@ -930,6 +930,7 @@ structure St where
   slot : List Nat := []                 -- dispatcher goroutines that hold a slot taken in reserve()
   lastDeq : List (Nat × Nat) := []      -- dispatcher goroutine ↦ job it dequeued and has not handed over yet
   curJob : List (Nat × Nat) := []       -- pool goroutine ↦ job whose worker function it entered
+  adapter : Bool := false               -- adapter-backed queue: a job is identified by its payload ("p<k>"), its handle is re-created
 
 def idx (tab : List (String × Nat)) (name : String) : Nat × List (String × Nat) :=
   match tab.find? (·.1 == name) with
@@ -942,9 +943,22 @@ def adel (l : List (Nat × Nat)) (k : Nat) : List (Nat × Nat) := l.filter (·.1
 def events (x : St) (l : RawLine) : Except String (St × List Ev) :=
   let g := l.g
   match l.tag, l.f with
-  | "A", _ => .error "NA adapter-backed queue (jobs are re-created from bytes)"
-  | "W", "enter" :: _ :: _ :: name :: _ =>
-    let (j, names) := idx x.names name
+  | "A", a :: op :: rest =>
+    -- one consumer on adapter 0 (several consumers / several adapters: not this model); the recording adapter logs
+    -- a delivery atomically with its effect; undecodable entries have no payload number and are dequeued and skipped
+    if a != "0" then .error "NA several adapter-backed queues"
+    else match op, rest with
+      | "deq", [_, "false"] => .ok ({ x with adapter := true }, [])
+      | "deq", [k, _] =>
+        if !x.slot.contains g then .error "delivery by the adapter to a goroutine that holds no slot"
+        else
+          let (j, names) := idx x.names (if k.toNat?.isSome then s!"p{k}" else s!"bad{x.names.length}")
+          .ok ({ x with adapter := true, names := names, lastDeq := aset x.lastDeq g j }, [.deq j])
+      | _, _ => .ok ({ x with adapter := true }, [])
+  | "A", _ => .error "NA adapter-backed queue"
+  | "W", "enter" :: k :: _ :: name :: _ =>
+    -- a handle the dispatcher dequeued by name (in-memory queue), else the payload delivered by an adapter
+    let (j, names) := idx x.names (if (x.names.any (·.1 == name)) || !x.adapter then name else s!"p{k}")
     .ok ({ x with names := names, curJob := aset x.curJob g j }, [.enter j])
   | "E", [fn, obj, op, arg, res] =>
     if obj.startsWith "worker#" && !(obj.startsWith "worker#1.") then .error "NA second worker"
